@@ -862,8 +862,8 @@ pub fn run_async<M: Shape + ?Sized>(c: &IoCase) -> IoTrace {
 // threaded blocking run (two real threads over a Mutex+Condvar pipe)
 
 pub struct TPipe {
-    /// (bytes written so far, read position, closed); plain memcpy only: padding bytes of messages may be uninitialised
-    pub buf: std::sync::Mutex<(Vec<u8>, usize, bool)>,
+    /// (bytes written so far, read position, writer closed, reader gone); plain memcpy only: padding bytes of messages may be uninitialised
+    pub buf: std::sync::Mutex<(Vec<u8>, usize, bool, bool)>,
     pub cv: std::sync::Condvar,
     pub cap: usize,
 }
@@ -875,8 +875,12 @@ impl io::Write for TWriter {
             return Ok(0);
         }
         let mut g = self.0.buf.lock().unwrap();
-        while g.0.len() - g.1 >= self.0.cap {
+        while g.0.len() - g.1 >= self.0.cap && !g.3 {
             g = self.0.cv.wait(g).unwrap();
+        }
+        if g.3 {
+            // the reading end is gone (receiver stopped on an error or panicked): a real pipe reports that, it does not block
+            return Err(io::ErrorKind::BrokenPipe.into());
         }
         let lim = if self.1.is_empty() { b.len() } else { self.1[self.2 % self.1.len()].max(1) };
         self.2 += 1;
@@ -893,8 +897,21 @@ impl io::Write for TWriter {
 }
 impl Drop for TWriter {
     fn drop(&mut self) {
-        let mut g = self.0.buf.lock().unwrap();
+        let mut g = match self.0.buf.lock() {
+            Ok(g) => g,
+            Err(p) => p.into_inner(),
+        };
         g.2 = true;
+        self.0.cv.notify_all();
+    }
+}
+impl Drop for TReader {
+    fn drop(&mut self) {
+        let mut g = match self.0.buf.lock() {
+            Ok(g) => g,
+            Err(p) => p.into_inner(),
+        };
+        g.3 = true;
         self.0.cv.notify_all();
     }
 }
@@ -921,7 +938,7 @@ impl io::Read for TReader {
 }
 
 pub fn run_threaded<M: Shape + ?Sized>(c: &IoCase) -> IoTrace {
-    let pipe = Arc::new(TPipe { buf: std::sync::Mutex::new((Vec::new(), 0, false)), cv: std::sync::Condvar::new(), cap: c.capacity.max(1) });
+    let pipe = Arc::new(TPipe { buf: std::sync::Mutex::new((Vec::new(), 0, false, false)), cv: std::sync::Condvar::new(), cap: c.capacity.max(1) });
     let (p1, p2) = (pipe.clone(), pipe);
     let msgs = c.msgs.clone();
     let (max, wch, rch) = (c.max_msg_len, c.wchunks.clone(), c.rchunks.clone());
